@@ -32,6 +32,26 @@ paths:
       responses:
         '200':
           description: from base
+  /:
+    delete:
+      operationId: stale-delete-root
+      responses:
+        '204':
+          description: from base, under a path the programs define themselves
+  /things/{id}:
+    delete:
+      operationId: stale-delete-thing
+      responses:
+        '204':
+          description: from base
+  /items:
+    delete:
+      operationId: stale-delete-items
+      responses:
+        '204':
+          description: from base
+  /items/{id}:
+    summary: from base
 components:
   schemas:
     fromBase:
